@@ -459,8 +459,12 @@ TRUSTED = [
     "(exp(1j*angle(r)) = r/|r|, 1 at r = 0)",
     "float runs: cos/sin are data (python math.cos/sin of the angle the harness recomputes; the model looks the table up by its own angle)",
 ]
-PROVED = ["see coq/props/Prop_C19.v (theorem list in obligation_list)"]
+PROVED = ["coq/props/Prop_C19.v: su2 step/run norm identity; exact norm product formulas for abrm (incl. rewinder) and abrm_nd with the "
+          "epsilon regulariser, bounds prod rho^2 <= norm <= 1 and exact unitarity at eps = 0; exact unitarity of abrm_hp, blochsim, abrm_ptx "
+          "for any input; zero RF => b = 0 (abrm, abrm_nd, abrm_hp, blochsim; |a| = 1 for the last two); composition = ordered SU(2) product "
+          "(generic, abrm_nd); partial: abrm_hp/blochsim composition (loop level), ab2rf inversion (on rotation parameters (c_j, s_j))"]
 VALIDATED = ["b2a / mag2mp (log/FFT/exp minimum-phase alpha) — numerical, validated only through the |B| round trip (1e-6)",
              "rf_j = 2*atan2(|s_j|, c_j)*exp(1j*angle(s_j)) <-> (c_j, s_j): validated numerically (the theorem is stated on (c_j, s_j))",
              "composition for abrm_hp / blochsim / abrm_ptx as whole functions: numerically (the proved composition is for the SU(2) runs "
-             "abrm_nd / abrm loop / generic ordered product)"]
+             "abrm_nd / abrm loop / generic ordered product)",
+             "abrm_ptx zero pulse => b = 0: numerically only"]
